@@ -135,9 +135,9 @@ Theorem C06_unanswerable_requests_ok :
   /\ resend_correct w_all w_small (Some [120%N]) (dec 0)
   /\ resend_correct w_all w_small None (dec 0)
   /\ serve_resend w_all (dec 5) (dec 0) w_small
-     = (mkSt ST_ACTIVE false false 3 2 2 (rows w_small) [] [] [ST_HANDLING; ST_ACTIVE], Some EAssertion)
+     = (mkSt ST_ACTIVE false None 3 2 2 (rows w_small) [] [] [ST_HANDLING; ST_ACTIVE], Some EAssertion)
   /\ serve_resend w_all (Some [120%N]) (dec 0) w_small
-     = (mkSt ST_ACTIVE false false 3 2 2 (rows w_small) [] [] [ST_HANDLING; ST_ACTIVE], Some EValue).
+     = (mkSt ST_ACTIVE false None 3 2 2 (rows w_small) [] [] [ST_HANDLING; ST_ACTIVE], Some EValue).
 Proof. exact unanswerable_requests_ok. Qed.
 Print Assumptions C06_unanswerable_requests_ok.
 
@@ -202,6 +202,23 @@ Theorem C06_possdup_tags_ok :
       /\ rows s' = rows w_tagged /\ cstate s' = ST_ACTIVE).
 Proof. exact possdup_tags_ok. Qed.
 Print Assumptions C06_possdup_tags_ok.
+
+(* the session-level test is equality on the whole MsgType value (noreply_msgs = the code's set,
+   C06_noreply_set_is_code): application types that merely START with a session-level value - AE, AB,
+   A1, 0Q, 1A, 2Z, 4B, 5X - are retransmitted: [Logon, AE2, 5X3, HB4, 1A5], Resend(1,0) ->
+   GF(1->2), AE2, 5X3, GF(4->5), 1A5 (replayed on the implementation; seeded change C07-6) *)
+Theorem C06_session_type_is_equality : forall t, is_sess_type t = true <-> In t noreply_msgs.
+Proof. exact is_sess_type_equality. Qed.
+Print Assumptions C06_session_type_is_equality.
+
+Theorem C06_prefix_types_ok :
+  forallb (fun t => negb (is_sess_type t)) w_prefix_types = true
+  /\ resend_correct w_all w_prefixed (dec 1) (dec 0)
+  /\ (let s' := fst (serve_resend w_all (dec 1) (dec 0) w_prefixed) in
+      map r_seq (wire s') = [1; 2; 3; 4; 5]
+      /\ map r_type (wire s') = [MT_SEQUENCERESET; [65; 69]%N; [53; 88]%N; MT_SEQUENCERESET; [49; 65]%N]).
+Proof. exact prefix_types_ok. Qed.
+Print Assumptions C06_prefix_types_ok.
 
 (* non-vacuity: a journal with application, session, SequenceReset and declined rows and a missing
    suffix, in RESENDREQ_AWAITING, meets the hypotheses of C06_reply_chain *)
